@@ -80,23 +80,61 @@ Example altcycle_other_root_ok :
   model_canon altcycle_alts altcycle_heap 1 = spec_canon altcycle_heap 1.
 Proof. vm_compute. reflexivity. Qed.
 
-(* C04-b: one FromDAOState used for two loads; the DAO of the first load has been released and the DAO of the
-   second load sits at the same address (id() reuse).  The second from_dao returns the first row's object. *)
+(* C04-b (FIXED by repo commit 32013a0): one FromDAOState used for two loads.
+   OLD code ([from_dao_old], no keep_alive): the DAO of the first load has been released and the DAO of the second load
+   sits at the same address (id() reuse); the second from_dao returns the first row's object.  Kept as a regression
+   example about the old behaviour. *)
 Definition reuse_dao1 : heap := heap_of [(0, mkObj 30 [4%Z] [])].
 Definition reuse_dao2 : heap := heap_of [(0, mkObj 30 [5%Z] [])].
 
-Theorem refuted_state_reuse :
+(* which later heaps the runtime may present to a reused state: pinned objects are still there, unchanged *)
+Definition admissible_next (s : st) (h1 h2 : heap) : Prop := forall x, In x (keep s) -> h2 x = h1 x.
+
+Theorem old_state_reuse_regression :
   exists r1 s1 r2 s2,
-    from_dao [] reuse_dao1 1 0 st0 = Some (r1, s1) /\
-    from_dao [] reuse_dao2 1 0 s1 = Some (r2, s2) /\
+    from_dao_old [] reuse_dao1 1 0 st0 = Some (r1, s1) /\
+    keep s1 = [] /\ admissible_next s1 reuse_dao1 reuse_dao2 /\
+    from_dao_old [] reuse_dao2 1 0 s1 = Some (r2, s2) /\
     ~ iso (dst s2) r2 reuse_dao2 0.
 Proof.
-  destruct (from_dao [] reuse_dao1 1 0 st0) as [[r1 s1]|] eqn:E1; [|vm_compute in E1; discriminate].
-  destruct (from_dao [] reuse_dao2 1 0 s1) as [[r2 s2]|] eqn:E2;
+  destruct (from_dao_old [] reuse_dao1 1 0 st0) as [[r1 s1]|] eqn:E1; [|vm_compute in E1; discriminate].
+  destruct (from_dao_old [] reuse_dao2 1 0 s1) as [[r2 s2]|] eqn:E2;
     [|vm_compute in E1; inversion E1; subst; vm_compute in E2; discriminate].
-  exists r1, s1, r2, s2. repeat split; auto. intros Hiso.
-  pose proof (iso_path_obs _ _ _ _ Hiso []) as H.
-  vm_compute in E1. inversion E1; subst. vm_compute in E2. inversion E2; subst. vm_compute in H. discriminate.
+  exists r1, s1, r2, s2.
+  vm_compute in E1. inversion E1; subst. split; auto. split; [reflexivity|]. split; [intros x []|]. split; auto.
+  intros Hiso. pose proof (iso_path_obs _ _ _ _ Hiso []) as H.
+  vm_compute in E2. inversion E2; subst. vm_compute in H. discriminate.
+Qed.
+
+(* CURRENT code: the first load pins its DAO, so a second heap with a different DAO at that address is not a state the
+   runtime can produce *)
+Theorem state_reuse_scenario_excluded :
+  exists r1 s1, from_dao [] reuse_dao1 1 0 st0 = Some (r1, s1) /\ In 0 (keep s1) /\
+    ~ admissible_next s1 reuse_dao1 reuse_dao2.
+Proof.
+  destruct (from_dao [] reuse_dao1 1 0 st0) as [[r1 s1]|] eqn:E1; [|vm_compute in E1; discriminate].
+  exists r1, s1. vm_compute in E1. inversion E1; subst. split; auto. split; [simpl; auto|].
+  intros H. specialize (H 0 (or_introl eq_refl)). vm_compute in H. discriminate.
+Qed.
+
+(* and in general: a FromDAOState reused for a second conversion over the DAOs the runtime keeps alive (one heap, distinct
+   addresses) converts the second root correctly, leaves the first result valid, and pins every memoised DAO *)
+Theorem state_reuse_safe alts l r1 r2 :
+  wf_heap l r1 = true -> wf_heap l r2 = true -> F04 alts l = true ->
+  exists d1 s1 d2 s2,
+    from_dao alts (heap_of l) (length l) r1 st0 = Some (d1, s1) /\
+    from_dao alts (heap_of l) (length l) r2 s1 = Some (d2, s2) /\
+    iso (heap_of l) r1 (dst s2) d1 /\ iso (heap_of l) r2 (dst s2) d2 /\
+    (forall x y, mlook x s2 = Some y -> In x (keep s2)).
+Proof.
+  intros W1 W2 HF. destruct (wf_heap_closed l r1 W1) as [Hr1 Hcl]. destruct (wf_heap_closed l r2 W2) as [Hr2 _].
+  assert (Hl : forall a o, heap_of l a = Some o -> p_late (P_fromdao alts) (p_cmap (P_fromdao alts) (ocls o)) = None).
+  { intros a o Ho. simpl. exact (proj2 (F04_cls alts l a o HF Ho)). }
+  destruct (walk_twice (P_fromdao alts) (heap_of l) (keys l) (fun a => In a (keys l)) Hcl (fun a H => H) Hl
+              (fun _ _ _ => eq_refl) r1 r2 Hr1 Hr2) as [d1 [s1 [d2 [s2 [E1 [E2 [HI [I1 I2]]]]]]]].
+  unfold keys in E1, E2. rewrite map_length in E1, E2.
+  exists d1, s1, d2, s2. unfold from_dao. repeat split; auto.
+  destruct HI as [_ [_ [_ [_ [_ J6]]]]]. exact (J6 eq_refl).
 Qed.
 
 (* with a fresh state per load (the default of from_dao) the second load is correct *)
